@@ -564,8 +564,13 @@ func addTransceiverSDP(
 
 	codecs := transceiver.getCodecs()
 	for _, codec := range codecs {
-		name := strings.TrimPrefix(codec.MimeType, "audio/")
-		name = strings.TrimPrefix(name, "video/")
+		// mime types are compared ignoring case everywhere else
+		name := codec.MimeType
+		for _, prefix := range []string{"audio/", "video/"} {
+			if len(name) >= len(prefix) && strings.EqualFold(name[:len(prefix)], prefix) {
+				name = name[len(prefix):]
+			}
+		}
 		media.WithCodec(uint8(codec.PayloadType), name, codec.ClockRate, codec.Channels, codec.SDPFmtpLine)
 
 		for _, feedback := range codec.RTPCodecCapability.RTCPFeedback {
